@@ -219,24 +219,30 @@ def fixMerge (l : Nat) (fx : FixOut K V) (slot : Nat) : Option (List K × List (
         else some (keys3, kids3, lf, inf)
   else some (fx.keys, fx.kids, 0, 0)
 
+/-- `myleft`: the left neighbour of child `slot`; for the first child the border child of the left
+neighbour of the node itself, `left->childid[left->slotuse - 1]` (sic).
+Outer `none`: the C++ would index −1 or treat a leaf as an inner node. -/
+def myLeft (kids : List (BNode K V)) (ctx : Ctx K V) (slot : Nat) : Option (Option (BNode K V)) :=
+  if slot = 0 then
+    match ctx.left with
+    | none => some none
+    | some (.inner _ lk lc) => if lk.length = 0 then none else some (lc[lk.length - 1]?)
+    | some (.leaf _) => none
+  else some (kids[slot - 1]?)
+
+/-- `myright`: the right neighbour of child `slot`; for the last child `right->childid[0]` -/
+def myRight (keys : List K) (kids : List (BNode K V)) (ctx : Ctx K V) (slot : Nat) : Option (Option (BNode K V)) :=
+  if slot = keys.length then
+    match ctx.right with
+    | none => some none
+    | some (.inner _ _ rc) => some (rc[0]?)
+    | some (.leaf _) => none
+  else some (kids[slot + 1]?)
+
 /-- the arguments of the recursive call for child `slot` of `inner(keys, kids)`: its neighbours
 (`myleft`, `myright`) and who their parents are (`myleft_parent`, `myright_parent`) -/
 def childCtx (h : Nat) (keys : List K) (kids : List (BNode K V)) (ctx : Ctx K V) (slot : Nat) : Option (Ctx K V) :=
-  let myleft : Option (Option (BNode K V)) :=
-    if slot = 0 then
-      match ctx.left with
-      | none => some none
-      | some (.inner _ lk lc) => if lk.length = 0 then none else some (lc[lk.length - 1]?)   -- left->childid[left->slotuse - 1]
-      | some (.leaf _) => none
-    else some (kids[slot - 1]?)
-  let myright : Option (Option (BNode K V)) :=
-    if slot = keys.length then
-      match ctx.right with
-      | none => some none
-      | some (.inner _ _ rc) => some (rc[0]?)
-      | some (.leaf _) => none
-    else some (kids[slot + 1]?)
-  match myleft, myright with
+  match myLeft kids ctx slot, myRight keys kids ctx slot with
   | some ml, some mr =>
     some { left := ml, right := mr,
            lp := if slot = 0 then ctx.lp else some ctx.depth,
@@ -266,6 +272,11 @@ def finishInner (p : Params K) (l : Nat) (keys3 : List K) (kids3 : List (BNode K
     some { node := .inner l keys3 kids3, setSep := setSep, lastUp := lastUp,
            leafFree := leafFree, innerFree := innerFree }
 
+/-- `parent->slotkey[parentslot] = k` as performed by the child frame (when it had a separator) -/
+def setSepKey (keys : List K) (slot : Nat) : Option K → List K
+  | some k => keys.set slot k
+  | none => keys
+
 /-- everything the frame of `inner(l, keys, kids)` does after the recursive call on child `slot`
 returned `r`: the child's own effects on this node (`setSep`, rebalancing with a sibling), the
 `btree_update_lastkey` / `btree_fixmerge` handling and this node's underflow decision -/
@@ -274,7 +285,7 @@ def afterChild (p : Params K) (l : Nat) (keys : List K) (kids : List (BNode K V)
   if r.rootDrop then none else                     -- a non-root child claimed to be the root
   -- effects the child frame had on this node
   let kids1 := kids.set slot r.node
-  let keys1 := match r.setSep with | some k => keys.set slot k | none => keys
+  let keys1 := setSepKey keys slot r.setSep
   match applyFix r.fix keys1 kids1 slot with
   | none => none
   | some fx =>
@@ -291,6 +302,32 @@ def afterChild (p : Params K) (l : Nat) (keys : List K) (kids : List (BNode K V)
     | none => none
     | some (keys3, kids3, lf, inf) =>
       finishInner p l keys3 kids3 ctx setSep lastUp (r.leafFree + lf) (r.innerFree + inf)
+
+/-- one iteration of the search loop: the recursive call on child `slot` (`rec` = the descent one level down) -/
+def visitChild (rec : BNode K V → Ctx K V → Option (Option (EraseOut K V))) (h : Nat) (keys : List K)
+    (kids : List (BNode K V)) (ctx : Ctx K V) (slot : Nat) : Option (Option (EraseOut K V)) :=
+  match kids[slot]?, childCtx h keys kids ctx slot with
+  | some child, some cctx => rec child cctx
+  | _, _ => none
+
+/-- how many children the search loop may visit: one for `erase_one`, up to the last child for `erase(iterator)` -/
+def scanTries (tg : Target K) (nkeys slot0 : Nat) : Nat :=
+  match tg with
+  | .key _ => 1
+  | .iter .. => nkeys + 1 - slot0
+
+/-- `if (slot < inner->slotuse && key_less(inner->slotkey[slot], iter.key())) return btree_not_found;` -/
+def scanStop (p : Params K) (tg : Target K) (keys : List K) (slot : Nat) : Bool :=
+  match tg with
+  | .key _ => true
+  | .iter _ _ k =>
+    match keys[slot]? with
+    | some sk => p.lt sk k
+    | none => false
+
+def Target.tkey : Target K → K
+  | .key k => k
+  | .iter _ _ k => k
 
 /-- `erase_one_descend` / `erase_iter_descend`; `none` = the C++ would leave defined behaviour,
 `some none` = `btree_not_found` -/
@@ -310,23 +347,9 @@ def eraseDescend (p : Params K) (tg : Target K) : Nat → BNode K V → Ctx K V 
       else (eraseInLeaf p es slot ctx).map some
   | 0, .inner .., _ => none
   | h + 1, .inner l keys kids, ctx =>
-    let tkey := match tg with | .key k => k | .iter _ _ k => k
-    let slot0 := findLower p keys tkey
-    let visit (slot : Nat) : Option (Option (EraseOut K V)) :=
-      match kids[slot]?, childCtx h keys kids ctx slot with
-      | some child, some cctx => eraseDescend p tg h child cctx
-      | _, _ => none
-    let tries := match tg with
-      | .key _ => 1
-      | .iter .. => keys.length + 1 - slot0
-    let stopAfter (slot : Nat) : Bool :=
-      match tg with
-      | .key _ => true
-      | .iter _ _ k =>
-        match keys[slot]? with
-        | some sk => p.lt sk k                         -- slot < slotuse && key_less(slotkey[slot], iter.key())
-        | none => false
-    match scanLoop visit stopAfter tries slot0 with
+    let slot0 := findLower p keys tg.tkey
+    match scanLoop (visitChild (eraseDescend p tg h) h keys kids ctx) (scanStop p tg keys)
+        (scanTries tg keys.length slot0) slot0 with
     | none => none
     | some none => some none
     | some (some (slot, r)) => (afterChild p l keys kids ctx slot r).map some
